@@ -408,13 +408,20 @@ where
                     "Unexpected end of file.",
                 ));
             }
-            if !path_str.starts_with("    ") || path_str.trim().is_empty() {
-                return Err(Error::new(
-                    ErrorKind::InvalidData,
-                    format!("Path expected: {path_str}"),
-                ));
-            }
-            let path = Path::from_escaped_string(path_str.trim()).map_err(|e| {
+            // Only the indentation and the line terminator are not a part of the path.
+            // Leading or trailing whitespace of any other kind belongs to the file name.
+            let escaped_path = path_str.strip_suffix('\n').unwrap_or(path_str);
+            let escaped_path = escaped_path.strip_suffix('\r').unwrap_or(escaped_path);
+            let escaped_path = match escaped_path.strip_prefix("    ") {
+                Some(p) if !p.is_empty() => p,
+                _ => {
+                    return Err(Error::new(
+                        ErrorKind::InvalidData,
+                        format!("Path expected: {path_str}"),
+                    ))
+                }
+            };
+            let path = Path::from_escaped_string(escaped_path).map_err(|e| {
                 Error::new(
                     ErrorKind::InvalidData,
                     format!("Invalid path {path_str}: {e}"),
